@@ -25,6 +25,7 @@ fn replay_fn(prop: &str) -> Option<fn(&str, &serde_json::Value) -> Verdict> {
         "C14" => Some(props::c14::replay),
         "C15" => Some(props::c15::replay),
         "C16" => Some(props::c16::replay),
+        "C17" => Some(props::c17::replay),
         "C18" => Some(props::c18::replay),
         "C03" => Some(props::c03::replay),
         "C04" => Some(props::c04::replay),
@@ -68,6 +69,7 @@ fn main() {
                 "C14" => props::c14::run(&ctx),
                 "C15" => props::c15::run(&ctx),
                 "C16" => props::c16::run(&ctx),
+                "C17" => props::c17::run(&ctx),
                 "C18" => props::c18::run(&ctx),
                 "C03" => props::c03::run(&ctx),
                 "C04" => props::c04::run(&ctx),
